@@ -28,8 +28,27 @@
 (*   covr: (dk/dlengthscale) / k of the RBF and Matern functions as        *)
 (*         rational functions, code shape = calculus on the polynomial     *)
 (*         coefficients, on geometries whose scaled distances are rational.*)
+(*                                                                         *)
+(* Part "gcalls": the CALL-CONFIGURATION lattice of the two-path kernels   *)
+(* (KernelCalls.tla): every keyword that selects between the hand-written  *)
+(* Function and the generic branch (diag, last_dim_is_batch, x2 = None /   *)
+(* equal / different, requires_grad of either input, trace_mode, ARD vs    *)
+(* shared vs batched lengthscale) x sizes incl. the coincidences kernel    *)
+(* batch = d = n.  TLC checks that the dispatch hands the Function only    *)
+(* configurations its saved derivative is right for (KCCallOK); the replay *)
+(* compares values and the gradient of EVERY parameter with autograd of    *)
+(* the documented formula, under every forcing of every cell.              *)
+(*                                                                         *)
+(* Part "gmachine": forward -> backward^k through ONE graph                *)
+(* (BackwardOps.tla) for every hand-written Function, reached directly and *)
+(* through the public object that uses it: different upstream gradients,   *)
+(* retain_graph, accumulation into .grad, Jacobian rows.  Invariants: the  *)
+(* backward is pure with respect to the saved context and every pass sees  *)
+(* what the forward stored, i.e. delivers u_j . dF(x).                     *)
 (***************************************************************************)
-EXTENDS Kernels
+EXTENDS Kernels, KernelCalls, BackwardOps
+
+CONSTANT MachFns          \* part "gmachine": the Functions of this run (the cases are partitioned over several TLC runs)
 
 \* ============================== gcells ==========================================================
 CovCells  == [kind : {"cov"}, fn : TwoPath, coincident : BOOLEAN, batch : {"none", "b2", "b23"}, upstream : {"ones", "random"}, d : {1, 3}]
@@ -146,7 +165,38 @@ GExpected(i) ==
   CASE i.kind \in {"nat", "tril"} -> LET mu == MuOf(i) IN [mu |-> mu, S |-> SOf(i), g1 |-> GradEta1(i, mu), g2 |-> GradEta2(i), gtril |-> IF i.kind = "tril" THEN TrilTangent(i) ELSE <<>>]
     [] i.kind = "covr" -> [ratio |-> CovrMat(i)]
 
-GInit == /\ c \in (IF Part = "gcells" THEN GCells ELSE Instances)
-         /\ out = (IF Part = "gcells" THEN GOut(c) ELSE GExpected(c))
-GSpec == GInit /\ [][Next]_vars
+\* ============================== gcalls ==========================================================
+GCallCells == {s \in KCCells : KCValid(s)}
+GCallsOK == Part = "gcalls" => KCCallOK(c) /\ out = KCOut(c)
+
+\* ============================== gmachine ========================================================
+\* a case = the Function, how it is reached ("function": Function.apply; "public": the kernel / variational distribution / log_normal_cdf that uses it) and the class of its input
+MachCases ==
+  [kind : {"mach"}, fn : {"rbfcov"}, api : {"function", "public"}, batch : {"none", "b2"}, nu2 : {0}, zc : {"-"}, M : {0}]
+  \cup [kind : {"mach"}, fn : {"materncov"}, api : {"function", "public"}, batch : {"none", "b2"}, nu2 : {1, 3, 5}, zc : {"-"}, M : {0}]
+  \* zc: "tail" all z < -1 | "mixed" the three branches in one tensor | "notail" no z < -1 (the forward then stores no numerator / denominator)
+  \cup [kind : {"mach"}, fn : {"lncdf"}, api : {"public"}, batch : {"none", "b2"}, nu2 : {0}, zc : {"tail", "mixed", "notail"}, M : {0}]
+  \cup [kind : {"mach"}, fn : {"nat2muvar", "trilnat2muvar"}, api : {"function", "public"}, batch : {"none", "b2"}, nu2 : {0}, zc : {"-"}, M : {2, 3}]
+  \cup [kind : {"mach"}, fn : {"ngdinterp"}, api : {"function"}, batch : {"none", "b2"}, nu2 : {0}, zc : {"-"}, M : {2, 3}]
+MachInit == {s \in MachCases : s.fn \in MachFns}
+MachTail(s) == s.fn = "lncdf" /\ s.zc # "notail"
+MachOut(m) == [m |-> m, exp |-> BWExpected(m)]
+MachNext == /\ Part = "gmachine"
+            /\ \E m2 \in BWSteps(out.m, c.fn) : out' = MachOut(m2)
+            /\ UNCHANGED c
+GMachineOK ==
+  Part = "gmachine" =>
+    /\ c.fn \in BWFns /\ DOMAIN out.m.ctx = BWNames(c.fn, MachTail(c))
+    /\ BWTypeOK(out.m)
+    /\ BWPure(out.m)                  \* the backward never writes to what the forward stored
+    /\ BWDerivOK(out.m)               \* hence pass j delivers u_j . dF(x), for every j
+    /\ out.exp = BWExpected(out.m)
+
+\* the same without purity: with a non-empty BWImpure this one needs a history of TWO passes to fail (used by the check as a vacuity guard of the histories)
+GMachineDerivOK == Part = "gmachine" => BWDerivOK(out.m)
+
+GInit == /\ c \in (CASE Part = "gcells" -> GCells [] Part = "gcalls" -> GCallCells [] Part = "gmachine" -> MachInit [] OTHER -> Instances)
+         /\ out = (CASE Part = "gcells" -> GOut(c) [] Part = "gcalls" -> KCOut(c) [] Part = "gmachine" -> MachOut(BWStart(c.fn, MachTail(c))) [] OTHER -> GExpected(c))
+GNext == IF Part = "gmachine" THEN MachNext ELSE Next
+GSpec == GInit /\ [][GNext]_vars
 =============================================================================
